@@ -1533,6 +1533,11 @@ class ReceivePackHandler(PackHandler):
                                     "Attempted to delete refs without "
                                     "delete-refs capability."
                                 )
+                        if ref_status == b"ok" and not self._ref_has_value(
+                            ref, oldsha, zero_sha
+                        ):
+                            ref_status = b"failed to update ref"
+                            has_failure = True
                     except KeyError:
                         ref_status = b"bad ref"
                         has_failure = True
@@ -1554,12 +1559,14 @@ class ReceivePackHandler(PackHandler):
                 try:
                     if sha == zero_sha:
                         try:
-                            self.repo.refs.remove_if_equals(ref, oldsha)
+                            if not self.repo.refs.remove_if_equals(ref, oldsha):
+                                ref_status = b"failed to update ref"
                         except all_exceptions:
                             ref_status = b"failed to delete"
                     else:
                         try:
-                            self.repo.refs.set_if_equals(ref, oldsha, sha)
+                            if not self.repo.refs.set_if_equals(ref, oldsha, sha):
+                                ref_status = b"failed to update ref"
                         except all_exceptions:
                             ref_status = b"failed to write"
                 except KeyError:
@@ -1585,17 +1592,27 @@ class ReceivePackHandler(PackHandler):
                                 "delete-refs capability."
                             )
                         try:
-                            self.repo.refs.remove_if_equals(ref, oldsha)
+                            if not self.repo.refs.remove_if_equals(ref, oldsha):
+                                ref_status = b"failed to update ref"
                         except all_exceptions:
                             ref_status = b"failed to delete"
                     else:
                         try:
-                            self.repo.refs.set_if_equals(ref, oldsha, sha)
+                            if not self.repo.refs.set_if_equals(ref, oldsha, sha):
+                                ref_status = b"failed to update ref"
                         except all_exceptions:
                             ref_status = b"failed to write"
                 except KeyError:
                     ref_status = b"bad ref"
                 yield (ref, ref_status)
+
+    def _ref_has_value(self, ref: Ref, oldsha: ObjectID, zero_sha: ObjectID) -> bool:
+        """Check whether a ref currently has the value the client expects."""
+        try:
+            current = self.repo.refs[ref]
+        except KeyError:
+            current = zero_sha
+        return current == oldsha
 
     def _report_status(self, status: Sequence[tuple[bytes, bytes]]) -> None:
         """Report status to client.
